@@ -71,6 +71,10 @@ structure Scan (F : Type) where
   matched : List Nat          -- indices with matchedIndices[i] = true (as a set)
   steps : Nat := 0            -- ghost: number of matchTxAndUpdate evaluations
   outOfFuel : Bool := false
+  /-- number of times the filter changed so far (Go: `version`) -/
+  version : Nat := 0
+  /-- `checkedAt[txIndex]` -/
+  checkedAt : List (Nat × Nat) := []
 
 /-- `inputs[hash]`: (transaction, index) registered so far, one entry per input -/
 abbrev Inputs := List (Bytes × Nat)
@@ -78,8 +82,9 @@ abbrev Inputs := List (Bytes × Nat)
 def dependants (block : Array Tx) (inputs : Inputs) (id : Bytes) : List Nat :=
   (inputs.filter (·.1 = id)).map (·.2) |>.filter (· < block.size)
 
-/-- `checkFilterTx`; fuel-bounded because the Go recursion is not structurally terminating -/
-def checkFilterTx (block : Array Tx) (inputs : Inputs) : Nat → Nat → Scan F → Scan F
+/-- reference semantics = the scan as originally written (re-check every dependant on every match);
+    exponential in the worst case, kept as the specification the repaired scan is compared with -/
+def checkFilterTxRef (block : Array Tx) (inputs : Inputs) : Nat → Nat → Scan F → Scan F
   | 0, _, s => { s with outOfFuel := true }
   | fuel+1, txIndex, s =>
     match block[txIndex]? with
@@ -89,24 +94,50 @@ def checkFilterTx (block : Array Tx) (inputs : Inputs) : Nat → Nat → Scan F 
       let s := { s with filter := f', steps := s.steps + 1 }
       if m then
         let s := { s with matched := if s.matched.contains txIndex then s.matched else txIndex :: s.matched }
-        (dependants block inputs tx.id).foldl (fun s d => checkFilterTx block inputs fuel d s) s
+        (dependants block inputs tx.id).foldl (fun s d => checkFilterTxRef block inputs fuel d s) s
       else s
 
-def GetMatchedIndices (fuel : Nat) (block : Array Tx) (f : F) : Scan F :=
-  let rec go (i : Nat) (n : Nat) (inputs : Inputs) (s : Scan F) : Scan F :=
-    match n with
-    | 0 => s
-    | n+1 =>
-      match block[i]? with
-      | none => s
-      | some tx =>
-        let inputs := inputs ++ tx.ins.map (fun inp => (inp.prevHash, i))
-        go (i+1) n inputs (checkFilterTx O block inputs fuel i s)
-  go 0 block.size [] { filter := f, matched := [] }
+/-- `checkFilterTx` after fix: skip a transaction already checked against the current filter version.
+    `same f f'` is the harness-visible "bit array unchanged" test (`bytes.Equal`). -/
+def checkFilterTx (same : F → F → Bool) (block : Array Tx) (inputs : Inputs) : Nat → Nat → Scan F → Scan F
+  | 0, _, s => { s with outOfFuel := true }
+  | fuel+1, txIndex, s =>
+    match block[txIndex]? with
+    | none => s
+    | some tx =>
+      if s.checkedAt.lookup txIndex = some s.version then s
+      else
+        let s := { s with checkedAt := (txIndex, s.version) :: s.checkedAt.filter (·.1 ≠ txIndex) }
+        let (f', m) := matchTxAndUpdate O s.filter tx
+        let s := { s with filter := f', steps := s.steps + 1,
+                          version := if same s.filter f' then s.version else s.version + 1 }
+        if m then
+          let s := { s with matched := if s.matched.contains txIndex then s.matched else txIndex :: s.matched }
+          (dependants block inputs tx.id).foldl (fun s d => checkFilterTx same block inputs fuel d s) s
+        else s
+
+/-- the outer loop of `GetMatchedIndices`, parameterised by the per-transaction check -/
+def scanLoop (check : Inputs → Nat → Scan F → Scan F) (block : Array Tx) : Nat → Nat → Inputs → Scan F → Scan F
+  | _, 0, _, s => s
+  | i, n+1, inputs, s =>
+    match block[i]? with
+    | none => s
+    | some tx =>
+      let inputs := inputs ++ tx.ins.map (fun inp => (inp.prevHash, i))
+      scanLoop check block (i+1) n inputs (check inputs i s)
+
+def GetMatchedIndices (same : F → F → Bool) (fuel : Nat) (block : Array Tx) (f : F) : Scan F :=
+  scanLoop (fun inputs i s => checkFilterTx O same block inputs fuel i s) block 0 block.size [] { filter := f, matched := [] }
+
+def GetMatchedIndicesRef (fuel : Nat) (block : Array Tx) (f : F) : Scan F :=
+  scanLoop (fun inputs i s => checkFilterTxRef O block inputs fuel i s) block 0 block.size [] { filter := f, matched := [] }
 
 end
 
 /-- the real bloom filter as an instance -/
+def bloomSame (a b : Bloom.Filter) : Bool :=
+  (match a with | some m => m.bits | none => []) == (match b with | some m => m.bits | none => [])
+
 def bloomOps : FilterOps Bloom.Filter where
   test := Bloom.Matches
   add := Bloom.add
